@@ -52,7 +52,7 @@ def bandOpen (b : Nat) : Prog Unit := do
   | .err e => .fail (.transport e)
   | .val (.head ver flags) =>
     match ver with
-    | .invalid => .panic "band_version_supported: semver parse unwrap"
+    | .invalid => .fail (.unsupportedBandVersion b)    -- (before the repair: `parse(..).unwrap()` panicked)
     | .tooNew => .fail (.unsupportedBandVersion b)
     | _ => if flags.isEmpty then pure () else .fail (.unsupportedBandFlags b)
   | .val _ => .fail .json
